@@ -131,13 +131,17 @@ func checkC10(c *Ctx, r *Report) {
 	// ---------------- C10.b all validators are wired
 	const av = "(*core/validators.ApiValidator).validateControllers"
 	ruleEach(c, r, "C10.b", av,
-		func(fi *FuncInfo) func(ast.Expr) bool { return w.rangeOverField(fi, "core/validators.ApiValidator.controllers") }, "v.controllers",
+		func(fi *FuncInfo) func(ast.Expr) bool {
+			return w.rangeOverField(fi, "core/validators.ApiValidator.controllers")
+		}, "v.controllers",
 		func(fi *FuncInfo) func(ast.Node) bool {
 			return w.callPred(fi, "(*core/validators.ControllerValidator).Validate")
 		}, "ControllerValidator.Validate", nil, true, "every controller is validated")
 	ruleEach(c, r, "C10.b", av,
-		func(fi *FuncInfo) func(ast.Expr) bool { return w.rangeOverField(fi, "core/validators.ApiValidator.controllers") }, "v.controllers",
-		func(fi *FuncInfo) func(ast.Node) bool { return w.appendTo(fi, identNamed("controllerDiags")) }, "append(controllerDiags)",
+		func(fi *FuncInfo) func(ast.Expr) bool {
+			return w.rangeOverField(fi, "core/validators.ApiValidator.controllers")
+		}, "v.controllers",
+		func(fi *FuncInfo) func(ast.Node) bool { return w.appendTo(fi, w.resultSlice(fi)) }, "append(controllerDiags)",
 		func(fi *FuncInfo) []skipSpec {
 			return []skipSpec{{Cond: w.condCalls(fi, "(core/validators/diagnostics.EntityDiagnostic).Empty"), Pol: false, Desc: "controller diagnostic is empty"}}
 		}, true, "every non-empty controller diagnostic is kept")
@@ -146,12 +150,16 @@ func checkC10(c *Ctx, r *Report) {
 
 	const cv = "(*core/validators.ControllerValidator).Validate"
 	ruleEach(c, r, "C10.b", cv,
-		func(fi *FuncInfo) func(ast.Expr) bool { return w.rangeOverField(fi, "core/metadata.ControllerMeta.Receivers") }, "controller.Receivers",
+		func(fi *FuncInfo) func(ast.Expr) bool {
+			return w.rangeOverField(fi, "core/metadata.ControllerMeta.Receivers")
+		}, "controller.Receivers",
 		func(fi *FuncInfo) func(ast.Node) bool {
 			return w.callPred(fi, "(*core/validators.ControllerValidator).validateReceiver")
 		}, "validateReceiver", nil, true, "every receiver is validated")
 	ruleEach(c, r, "C10.b", cv,
-		func(fi *FuncInfo) func(ast.Expr) bool { return w.rangeOverField(fi, "core/metadata.ControllerMeta.Receivers") }, "controller.Receivers",
+		func(fi *FuncInfo) func(ast.Expr) bool {
+			return w.rangeOverField(fi, "core/metadata.ControllerMeta.Receivers")
+		}, "controller.Receivers",
 		func(fi *FuncInfo) func(ast.Node) bool {
 			return w.callPred(fi, "(*core/validators/diagnostics.EntityDiagnostic).AddChild")
 		}, "AddChild(receiver diagnostic)",
@@ -188,7 +196,7 @@ func checkC10(c *Ctx, r *Report) {
 				return ok && calleeOfCall(fi.Pkg.TypesInfo, cl) == "(core/annotations.AnnotationHolder).Attributes"
 			}
 		}, "holder.Attributes()",
-		func(fi *FuncInfo) func(ast.Node) bool { return w.appendTo(fi, identNamed("diags")) }, "append(diags)", nil, false,
+		func(fi *FuncInfo) func(ast.Node) bool { return w.appendTo(fi, w.resultSlice(fi)) }, "append(diags)", nil, false,
 		"every attribute yields either its validateAnnotation diagnostics or an unknown-annotation diagnostic")
 	ruleResultReturned(c, r, "C10.b", "(*core/validators.CommonValidator).validateCommon", va)
 	ruleResultReturned(c, r, "C10.b", "(*core/validators.ControllerValidator).validateSelf", "(core/validators.CommonValidator).Validate")
@@ -196,7 +204,9 @@ func checkC10(c *Ctx, r *Report) {
 	// validateParams: every non-context parameter reaches its kind check and the combination check
 	const vp = "(core/validators.ReceiverValidator).validateParams"
 	ruleEach(c, r, "C10.b", vp,
-		func(fi *FuncInfo) func(ast.Expr) bool { return w.rangeOverField(fi, "core/metadata.ReceiverMeta.Params") }, "receiver.Params",
+		func(fi *FuncInfo) func(ast.Expr) bool {
+			return w.rangeOverField(fi, "core/metadata.ReceiverMeta.Params")
+		}, "receiver.Params",
 		func(fi *FuncInfo) func(ast.Node) bool {
 			return w.callPred(fi, "(core/validators.ReceiverValidator).validateParamsCombinations")
 		}, "validateParamsCombinations",
@@ -718,7 +728,7 @@ func checkC10Linking(c *Ctx, r *Report) {
 				return ok && strings.HasSuffix(calleeOfCall(fi.Pkg.TypesInfo, cl), ").ToSlice")
 			}
 		}, "funcParamNames",
-		func(fi *FuncInfo) func(ast.Node) bool { return w.appendTo(fi, identNamed("diags")) }, "append(diags, unreferenced)",
+		func(fi *FuncInfo) func(ast.Node) bool { return w.appendTo(fi, w.resultSlice(fi)) }, "append(diags, unreferenced)",
 		func(fi *FuncInfo) []skipSpec {
 			return []skipSpec{
 				{Cond: func(e ast.Expr) bool { return strings.Contains(exprString(e), "wasSeen") }, Pol: false, Desc: "parameter was referenced"},
